@@ -267,7 +267,7 @@ Proof.
     apply Forall_app. split.
     + apply Forall_map_may. apply Forall_forall. intros f Hf.
       destruct (mkdir_chain_spec _ _ _ Hf) as [ms [rest [NE [E1 E2]]]]. subst f. apply CN.
-      unfold commit_new. rewrite EX, NR. cbn [negb andb]. rewrite (nonempty_below _ _ NE). cbn [andb].
+      unfold commit_new. rewrite EX, NR. cbn [negb andb]. rewrite under_app. cbn [andb].
       rewrite E, <- X. eapply removelast_prefix_below; [exact E1|]. rewrite X. discriminate.
     + repeat constructor. apply CN. unfold commit_new, must. cbn [snd]. rewrite EX, NR, !fpath_eqb_refl. reflexivity.
 Qed.
